@@ -65,6 +65,7 @@ fn run_spec(s: &RunSpec, props: &BTreeSet<&'static str>, tier: Tier) -> Explore 
         max_secs: if tier == Tier::Quick { 40.0 } else { 900.0 },
         max_depth: s.max_depth,
         adequacy: s.adequacy,
+        collect_histories: false,
     };
     let mut ex = explore(d.as_ref(), props, &s.want, &limits);
     if !s.hashers.is_empty() {
